@@ -35,7 +35,7 @@ EXTENDS Integers, Sequences, FiniteSets, TLC
 
 CONSTANTS MaxKeys,      \* 1..3  longest ORDER BY list
           FullWindows,  \* TRUE: LIMIT x OFFSET is the full product of {none,0,1,n-1,n,n+1}
-          Rich          \* TRUE: more select lists / WHERE variants / 3rd keys of every kind
+          Rich          \* TRUE: more select lists / WHERE variants
 
 N == -99        \* NULL
 NoLim == -1     \* LIMIT / OFFSET clause absent
@@ -145,7 +145,8 @@ Classes(rows, dirs) == ClassFrom(rows, dirs, Len(rows))
 \* the deduplicated, sorted input of the window, in ONE admissible order (ties in source order)
 \* (<< >> \o f makes TLC evaluate the function once into a tuple instead of re-evaluating it at every application)
 \* outsel: the select list that produces the output tuple (q.sel, except under a named deviation); ordinals always refer to q.sel
-ProjectionS(q, keys, outsel) == LET b == Base(q) IN << >> \o [i \in 1..Len(b) |-> [o |-> << >> \o OutOf(outsel, b[i]), k |-> << >> \o KeysOf(keys, q.sel, b[i])]]
+ProjectionB(b, q, keys, outsel) == << >> \o [i \in 1..Len(b) |-> [o |-> << >> \o OutOf(outsel, b[i]), k |-> << >> \o KeysOf(keys, q.sel, b[i])]]
+ProjectionS(q, keys, outsel) == ProjectionB(Base(q), q, keys, outsel)
 Projection(q, keys) == ProjectionS(q, keys, q.sel)
 SortedInput(q, keys) ==
     LET p == Projection(q, keys) IN SortBy(IF q.dist THEN Distinct(p) ELSE p, Dirs(keys))
@@ -203,21 +204,41 @@ Deterministic(R, cls, lim, off) ==
 (*    (q.ix says that the query runs against the indexed copy of the       *)
 (*    tables; that field exists only on the observations fed back by the   *)
 (*    check, never on generated queries.)                                  *)
+(*  over a join (ordered by the hand-written loop of Database::query):      *)
+(*    "join_window_first"       LIMIT/OFFSET are applied to the join rows  *)
+(*                              in the order the join PRODUCES them        *)
+(*                              (JoinProd); what is left is ordered after  *)
+(*    "join_topk_not_sorted"    with LIMIT (a TopK plan) nothing is ordered *)
+(*    "join_duplicate_name_key" ORDER BY y.id reads x.id when x.id is in   *)
+(*                              the select list too (both are called id)   *)
+(*    "join_limit0_returns_one" LIMIT 0 behaves like LIMIT 1               *)
 (*  "distinct_window_twice"  SELECT DISTINCT with LIMIT/OFFSET cuts the    *)
 (*    window out of the sorted rows BEFORE duplicates are removed, removes *)
 (*    the duplicates and cuts the same window again.                       *)
 (***************************************************************************)
 DevSeq == << "aggregate_keys_ignored", "distinct_window_twice", "expr_columns_dropped", "index_scan_drops_null_keys",
+             "join_duplicate_name_key", "join_limit0_returns_one", "join_topk_not_sorted", "join_window_first",
              "null_equals_all", "ordinal_ignored", "setop_first_column", "unprojected_ignored" >>
 DevNames == SeqToSet(DevSeq)
 PlainColumn(q, e) == IF q.src = "group" THEN e = "c1" ELSE e \in Cols
+\* the order in which the hash join of the implementation PRODUCES the join rows: w-major (w is the probe side)
+JoinProd(rs) ==
+    LET RECURSIVE J(_, _)
+        J(j, i) == IF j > Len(W) THEN << >>
+                   ELSE IF i > Len(rs) THEN J(j + 1, 1)
+                   ELSE (IF rs[i][2] # N /\ rs[i][2] = W[j][2] THEN << <<rs[i][1], W[j][1], rs[i][2]>> >> ELSE << >>) \o J(j, i + 1)
+    IN J(1, 1)
 DeadKeys(q, devs) == {i \in 1..Len(q.keys) :
                         \/ "ordinal_ignored" \in devs /\ q.keys[i].k = "ord"
                         \/ "unprojected_ignored" \in devs /\ ~Projected(q.keys[i], q.sel)
                         \/ "aggregate_keys_ignored" \in devs /\ q.keys[i].k = "e" /\ ~PlainColumn(q, q.keys[i].x)}
 LiveKeys(q, devs) ==
     IF "setop_first_column" \in devs THEN << [k |-> "ord", x |-> "1", d |-> q.keys[1].d] >>
-    ELSE SelectSeqIdx(q.keys, LAMBDA i : i \notin DeadKeys(q, devs), 1)
+    ELSE IF "join_topk_not_sorted" \in devs THEN << >>
+    ELSE LET ks == SelectSeqIdx(q.keys, LAMBDA i : i \notin DeadKeys(q, devs), 1)
+         IN IF "join_duplicate_name_key" \in devs
+              THEN [i \in 1..Len(ks) |-> IF ks[i].k = "e" /\ ks[i].x = "c2" THEN [k |-> "e", x |-> "c1", d |-> ks[i].d] ELSE ks[i]]
+              ELSE ks
 OutSel(q, devs) == IF "expr_columns_dropped" \in devs THEN SelectSeqIdx(q.sel, LAMBDA i : PlainColumn(q, q.sel[i]), 1) ELSE q.sel
 CmpDirNullEq(x, y, d) == IF x = N \/ y = N THEN 0 ELSE CmpDir(x, y, d)
 RECURSIVE CmpNullEqFrom(_, _, _, _)
@@ -252,39 +273,52 @@ TwiceFrom(obs, P, dirs, q, m, nulleq, acc, used) ==
               /\ j \notin used
               /\ (acc = << >> \/ (IF nulleq THEN CmpNullEq(P[acc[Len(acc)]].k, P[j].k, dirs) ELSE Cmp(P[acc[Len(acc)]].k, P[j].k, dirs)) <= 0)
               /\ TwiceFrom(obs, P, dirs, q, m, nulleq, Append(acc, j), used \cup {j})
-\* the deviations of devs can apply to q at all
-Applicable(q, devs) ==
-    /\ ("ordinal_ignored" \in devs => \E i \in 1..Len(q.keys) : q.keys[i].k = "ord")
-    /\ ("unprojected_ignored" \in devs => \E i \in 1..Len(q.keys) : ~Projected(q.keys[i], q.sel))
-    /\ ("aggregate_keys_ignored" \in devs => q.src = "group" /\ \E i \in 1..Len(q.keys) : q.keys[i].k = "e" /\ ~PlainColumn(q, q.keys[i].x))
-    /\ ("setop_first_column" \in devs => q.src = "union" /\ Len(q.keys) > 0)
-    /\ ("distinct_window_twice" \in devs => q.src = "plain" /\ q.dist /\ (q.lim # NoLim \/ q.off # NoLim))
-    /\ ("expr_columns_dropped" \in devs => \E i \in 1..Len(q.sel) : ~PlainColumn(q, q.sel[i]))
-    /\ ("index_scan_drops_null_keys" \in devs => q.ix /\ q.src = "plain" /\ q.w = "none" /\ Len(q.keys) = 1
-                                                   /\ q.keys[1].k = "e" /\ q.keys[1].x = "c2")
+\* the deviation d can apply to q at all.  The dead-key deviations describe the Volcano sort; a set operation and a
+\* join with LIMIT are ordered by other code (setop_first_column, join_topk_not_sorted)
+Applies(q, d) ==
+    LET volcano == q.src # "union" /\ ~(q.src = "join" /\ q.lim # NoLim) IN
+    CASE d = "ordinal_ignored" -> volcano /\ \E i \in 1..Len(q.keys) : q.keys[i].k = "ord"
+      [] d = "unprojected_ignored" -> volcano /\ \E i \in 1..Len(q.keys) : ~Projected(q.keys[i], q.sel)
+      [] d = "aggregate_keys_ignored" -> q.src = "group" /\ \E i \in 1..Len(q.keys) : q.keys[i].k = "e" /\ ~PlainColumn(q, q.keys[i].x)
+      [] d = "setop_first_column" -> q.src = "union" /\ Len(q.keys) > 0
+      [] d = "distinct_window_twice" -> q.src = "plain" /\ q.dist /\ (q.lim # NoLim \/ q.off # NoLim)
+      [] d = "expr_columns_dropped" -> \E i \in 1..Len(q.sel) : ~PlainColumn(q, q.sel[i])
+      [] d = "index_scan_drops_null_keys" -> q.ix /\ q.src = "plain" /\ q.w = "none" /\ Len(q.keys) = 1 /\ q.keys[1].k = "e" /\ q.keys[1].x = "c2"
+      [] d = "join_duplicate_name_key" -> q.src = "join" /\ "c1" \in SeqToSet(q.sel) /\ \E i \in 1..Len(q.keys) : q.keys[i].k = "e" /\ q.keys[i].x = "c2"
+      [] d = "join_limit0_returns_one" -> q.src = "join" /\ q.lim = 0
+      [] d = "join_topk_not_sorted" -> q.src = "join" /\ q.lim # NoLim /\ Len(q.keys) > 0
+      [] d = "join_window_first" -> q.src = "join" /\ Len(q.keys) > 0 /\ (q.lim # NoLim \/ q.off # NoLim)
+      [] d = "null_equals_all" -> Len(q.keys) > 0
+Applicable(q, devs) == \A d \in devs : Applies(q, d)
 \* observed is what the reference semantics modified by exactly the deviations devs allows
 DevAdmissible(obs, q, devs) ==
     LET keys == LiveKeys(q, devs)
         dirs == Dirs(keys)
-        P0 == ProjectionS(q, keys, OutSel(q, devs))
-        P == IF "index_scan_drops_null_keys" \in devs /\ Len(keys) > 0 THEN SelectSeqIdx(P0, LAMBDA i : P0[i].k[1] # N, 1) ELSE P0
+        lim == IF "join_limit0_returns_one" \in devs /\ q.lim = 0 THEN 1 ELSE q.lim
+        base == IF "join_window_first" \in devs THEN JoinProd(Tab(q.tab)) ELSE Base(q)
+        P0 == ProjectionB(base, q, keys, OutSel(q, devs))
+        P1 == IF "index_scan_drops_null_keys" \in devs /\ Len(keys) > 0 THEN SelectSeqIdx(P0, LAMBDA i : P0[i].k[1] # N, 1) ELSE P0
+        \* join_window_first: the window is cut out of the rows as the join produces them; what is left is ordered
+        P == IF "join_window_first" \in devs THEN Window(P1, lim, q.off) ELSE P1
+        wl == IF "join_window_first" \in devs THEN NoLim ELSE lim
+        wo == IF "join_window_first" \in devs THEN NoLim ELSE q.off
         nulleq == "null_equals_all" \in devs
     IN /\ Applicable(q, devs)
        /\ IF "distinct_window_twice" \in devs
             THEN /\ (nulleq => HasNullKey(P))
                  /\ TwiceFrom(obs, P, dirs, q, WinHi(Len(P), q.lim, q.off) - WinLo(Len(P), q.off), nulleq, << >>, {})
             ELSE LET R == SortBy(IF q.dist THEN Distinct(P) ELSE P, dirs) IN
-                 IF nulleq THEN NullEqAdmissible(obs, R, dirs, q.lim, q.off)
-                           ELSE AdmissibleOutput(obs, R, Classes(R, dirs), q.lim, q.off)
-\* candidate explanations: at most three deviations; fewer first, then by position in DevSeq (a fixed total order)
-DevSets == {S \in SUBSET DevNames : Cardinality(S) \in 1..3}
+                 IF nulleq THEN NullEqAdmissible(obs, R, dirs, wl, wo)
+                           ELSE AdmissibleOutput(obs, R, Classes(R, dirs), wl, wo)
+\* candidate explanations: at most four of the deviations that apply to q; fewer first, then by position in DevSeq
+DevSets(q) == {S \in SUBSET {d \in DevNames : Applies(q, d)} : Cardinality(S) \in 1..4}
 RECURSIVE WeightFrom(_, _)
 WeightFrom(S, i) == IF i > Len(DevSeq) THEN 0 ELSE (IF DevSeq[i] \in S THEN 2 ^ (i - 1) ELSE 0) + WeightFrom(S, i + 1)
-Rank(S) == Cardinality(S) * 1000 + WeightFrom(S, 1)
+Rank(S) == Cardinality(S) * 10000 + WeightFrom(S, 1)
 \* [v |-> "ok" | "dev" | "bad", devs |-> the explaining set]
 Verdict(obs, q) ==
     IF Admissible(obs, q) THEN [v |-> "ok", devs |-> {}]
-    ELSE LET hits == {S \in DevSets : DevAdmissible(obs, q, S)}
+    ELSE LET hits == {S \in DevSets(q) : DevAdmissible(obs, q, S)}
          IN IF hits = {} THEN [v |-> "bad", devs |-> {}]
             ELSE [v |-> "dev", devs |-> CHOOSE S \in hits : \A T \in hits : Rank(S) <= Rank(T)]
 
@@ -304,8 +338,8 @@ KeyLists(sel) ==
         K1 == {<<k>> : k \in K}
         K2 == {<<k1, k2>> : k1 \in K, k2 \in {k \in K : TRUE}}
         ok2 == {s \in K2 : Atom(s[1]) # Atom(s[2])}
-        \* a third key: the unique column in either direction (makes the order total), or anything when Rich
-        K3 == {<<s[1], s[2], k3>> : s \in ok2, k3 \in (IF Rich THEN K ELSE {k \in K : k.k = "e" /\ k.x = "c1"})}
+        \* a third key: the first column in either direction (the unique id of a plain source: the order becomes total)
+        K3 == {<<s[1], s[2], k3>> : s \in ok2, k3 \in {k \in K : k.k = "e" /\ k.x = "c1"}}
         ok3 == {s \in K3 : Atom(s[3]) # Atom(s[1]) /\ Atom(s[3]) # Atom(s[2])}
     IN K1 \cup (IF MaxKeys >= 2 THEN ok2 ELSE {}) \cup (IF MaxKeys >= 3 THEN ok3 ELSE {})
 WinVals(n) == {NoLim, 0, 1, n - 1, n, n + 1} \cap (Nat \cup {NoLim})
